@@ -8,6 +8,12 @@
 (* which the scripted random words range over ALL tuples of (0..L-1)^D, L  *)
 (* a multiple of every modulus a correct sampler can use; it is judged at  *)
 (* its first record.                                                       *)
+(* A round record with src = "pather" is one of several rounds that drew   *)
+(* their paths from the table of one real scion.Pather (sid: the           *)
+(* behaviour, rnd: its number there, since: rounds since the last refresh  *)
+(* of the table); its `offered` is what the scripted daemon answered at    *)
+(* that refresh, so the clauses below judge such a round against the       *)
+(* table-level offer, whatever earlier rounds did with their slices.       *)
 (*   monitor (MultipathTrace_mon):    the property section of C15          *)
 (*   strict  (MultipathTrace_strict): the record is what Multipath.tla     *)
 (*                                    computes for the scripted words      *)
@@ -18,6 +24,8 @@ VARIABLE l
 
 M == INSTANCE Multipath WITH
        MaxClients <- 0, MaxPaths <- 0, ThetaVecs <- {}, AllCompletions <- FALSE, FW <- 8,
+       MaxRounds <- 1, MaxRefresh <- 1, PrivateSlice <- TRUE, KeepHist <- FALSE,
+       table <- << >>, round <- 1, nref <- 1, hist <- << >>,
        pc <- "done", offered <- << >>, theta <- << >>, nc <- 0, mode0 <- << >>, mode <- << >>,
        ps <- << >>, sps <- << >>, nsps <- 0, ci <- 0, k <- 0, rng <- << >>, picks <- << >>,
        resets <- << >>, fresets <- << >>, launched <- {}, outcome <- << >>, order <- << >>,
@@ -100,6 +108,8 @@ PicksOf(kk, r, d) ==
   IF d > Len(r) THEN << >>
   ELSE (IF r[d] < kk THEN << <<r[d], kk + d - 1>> >> ELSE << >>) \o PicksOf(kk, r, d + 1)
 
+\* the table the round drew from was filled from the answer Multipath.tla's Refresh/PathsDone installed
+SOffered == IsRound => (R.offered = R.exp_offered /\ (R.src = "pather" => R.nans = R.nref))
 SAssign == IsRound => (R.asg = R.exp_asg /\ \A c \in Cl(R) : Len(R.probed[c]) <= 1)
 SResets == IsRound => \A c \in Cl(R) :
   /\ R.freset[c] = R.exp_resets[c]
